@@ -241,7 +241,7 @@ theorem commit_deleted_sub (H : Bytes → Bytes) (t : WT) (lvl : Int) (k : Bytes
   · simp only [hd, Bool.not_true, Bool.false_eq_true, if_false] at hk
     exact (mem_eraseAll.mp hk).1
   · simp only [hd, Bool.not_false, if_true] at hk
-    exact hk
+    split at hk <;> exact hk
 
 theorem deleteNodes_store (t : WT) : (deleteNodes t).1.store = t.store.apply (t.deleted.map StoreOp.del) := rfl
 theorem deleteNodes_created (t : WT) : (deleteNodes t).1.created = t.created := rfl
